@@ -493,6 +493,14 @@ PROPS["C08"]["harness"].append({"bin": "h_hs", "args": []})
 PROPS["C14"]["harness"].append({"bin": "h_prim", "args": ["limiter"], "as_props": ["C08"]})
 PROPS["C14"]["harness"].append({"bin": "h_codec", "args": ["limits"], "as_props": ["C08"]})
 PROPS["C14"]["lean_modules"].append("Stef.Props.C08")
+# C14: "... produces a stream that the server's reader - generated for the server's schema - accepts and
+# decodes with every field common to both schemas intact": the cross-version data path is the machinery of
+# C04 (code generated for both versions, forward / downgrade / refuse runs); its failures count here
+PROPS["C14"]["runner"] = "hgen"
+PROPS["C14"]["runner_args"] = ["c04"]
+PROPS["C14"]["oracle_prefixes"] = ["sd decode", "sd values"]
+PROPS["C14"]["runner_as_props"] = ["C04"]
+PROPS["C14"]["lean_modules"].append("Stef.Props.C04")
 PROPS["C03"]["harness"].append({"bin": "h_codec", "args": ["hostile"]})
 
 PROPS["C09"]["needs_gen"] = ["Funcs"]
